@@ -25,6 +25,21 @@ KSCALES = ["1073741827", "4503599627370497", "2305843009213693953", "46116860184
            "6148914691236517205", "1000000000000000007", "9223372036854775807", "18446744073709551629",
            "79228162514264337593543950343", "85070591730234615865843651857942052869"]
 
+# NEGATIVE PROBING (GEN_Token_probe.cfg, generator mode GenNextP): every generated behaviour builds a deep
+# state (both tokens of the "erc" prologue, one bound to a contract; issues, edits, hand-overs, mints to the
+# cap, burns, conversions, parameter switches) and ENDS with four events the specification rejects, drawn from
+# every message type with identifiers of the wrong kind in every field (case twins, prefixes, reserved prefixes,
+# names at / beyond the length limits, the fee denom, an IBC denom, the symbol where the coin is expected and
+# the other way round, a plain coin MAA that is no token's), amounts 0 and 1, receivers that are blocked /
+# module accounts / no address.  The driver's epilogue is computed from the chain's REAL state.
+NAME64 = "q" + "a" * 63
+PROBE_CFG = ("users=3,quirks=1,stake=60,minunits=maa:mbb:mcc:ibc/x1:MAA:htltmaa:" + NAME64 + ",ibc=20,kscale=auto,basefee=5,"
+             "taxnum=2,taxden=5,mintnum=1,mintden=2" + REG)
+PROBE_GEN = T(dict(cfg="GEN_Token_probe.cfg", num=10, depth=18, seeds=4, driver_cfg=PROBE_CFG),
+              dict(cfg="GEN_Token_probe.cfg", num=50, depth=22, seeds=12, driver_cfg=PROBE_CFG))
+# fixed probe suites: every wrong-kind input class x message, so that the new antecedents never depend on the seed
+PROBE_SCN_CFG = PROBE_CFG.replace("kscale=auto", "kscale=1")
+
 # random histories draw their own configuration (tax, ratios, swap ratio, fees);
 # every history mixes all message types, the pure function included
 TOKEN_RND = T([dict(n=10, len=30, procs=8)], [dict(n=60, len=40, procs=12)])
@@ -33,14 +48,19 @@ bundled(TOKEN_RND)
 
 C09_MC = T([dict(cfg="MC_Token.cfg", timeout=900, heap="4g"), dict(cfg="MC_TokenId.cfg", timeout=900, heap="4g")],
            [dict(cfg="MC_Token_big.cfg", timeout=3000, heap="4g"), dict(cfg="MC_TokenId.cfg", timeout=900, heap="4g")])
-C09_GEN = T([dict(cfg="GEN_Token.cfg", num=20, depth=16, seeds=6, driver_cfg=C09_GEN_CFG)],
-            [dict(cfg="GEN_Token.cfg", num=60, depth=20, seeds=14, driver_cfg=C09_GEN_CFG)])
+# (quick tier: the closing operations run after the probing behaviours, the random histories and the
+# scenarios only; thorough: after every behaviour)
+C09_GEN = T([dict(cfg="GEN_Token.cfg", num=20, depth=16, seeds=6, driver_cfg=C09_GEN_CFG + ",epilogue=0"), PROBE_GEN["quick"]],
+            [dict(cfg="GEN_Token.cfg", num=60, depth=20, seeds=14, driver_cfg=C09_GEN_CFG), PROBE_GEN["thorough"]])
 # token_cover_*: scripted coverage suites — every antecedent in `required` is exercised
 # by them on the unchanged tree, so vacuity never depends on the seed
 C09_SCN = [dict(file="scenarios/token_F5.ndjson", cfg=C09_GEN_CFG),
            dict(file="scenarios/token_cover_c09.ndjson", cfg=C09_GEN_CFG),
            # one name as symbol of one token and min unit of another (separate key spaces)
-           dict(file="scenarios/token_namespace.ndjson", cfg=C09_GEN_CFG)]
+           dict(file="scenarios/token_namespace.ndjson", cfg=C09_GEN_CFG),
+           # negative probing: wrong-kind identifiers, odd receivers, every role, module-owned token
+           dict(file="scenarios/token_probe_c09.ndjson", cfg=PROBE_SCN_CFG),
+           dict(file="scenarios/token_probe_c10.ndjson", cfg=PROBE_SCN_CFG)]
 
 # MC_TokenLife: the ERC20 life cycle beyond C10 (deploy for a token / the native token /
 # an IBC denom / twice, upgrade, the hook on foreign and malformed logs), diagnostics X10_*
@@ -48,10 +68,10 @@ C10_MC = T([dict(cfg="MC_TokenMath.cfg", timeout=900, workers=4, heap="4g"), dic
             dict(cfg="MC_TokenLife.cfg", timeout=900, heap="4g")],
            [dict(cfg="MC_TokenMath.cfg", timeout=900, workers=4, heap="4g"), dict(cfg="MC_TokenErc_big.cfg", timeout=3000, heap="4g"),
             dict(cfg="MC_TokenLife_big.cfg", timeout=3000, heap="4g")])
-C10_GEN = T([dict(cfg="GEN_TokenErc.cfg", num=20, depth=16, seeds=6, driver_cfg=C10_GEN_CFG),
-             dict(cfg="GEN_TokenMath.cfg", mode="bfs", depth=401, seeds=1, driver_cfg="")],
+C10_GEN = T([dict(cfg="GEN_TokenErc.cfg", num=20, depth=16, seeds=6, driver_cfg=C10_GEN_CFG + ",epilogue=0"),
+             dict(cfg="GEN_TokenMath.cfg", mode="bfs", depth=401, seeds=1, driver_cfg=""), PROBE_GEN["quick"]],
             [dict(cfg="GEN_TokenErc.cfg", num=60, depth=20, seeds=14, driver_cfg=C10_GEN_CFG),
-             dict(cfg="GEN_TokenMath_big.cfg", mode="bfs", depth=401, seeds=1, driver_cfg="")])
+             dict(cfg="GEN_TokenMath_big.cfg", mode="bfs", depth=401, seeds=1, driver_cfg=""), PROBE_GEN["thorough"]])
 C10_SCN = [dict(file="scenarios/token_F6.ndjson", cfg="users=3,stake=40," + BASE + REG),
            dict(file="scenarios/token_F6_panic.ndjson",
                 cfg="users=3,stake=40," + BASE + ",regin=maa,regout=mbb,regrn=2,regrd=1"),
@@ -73,7 +93,10 @@ C10_SCN = [dict(file="scenarios/token_F6.ndjson", cfg="users=3,stake=40," + BASE
            # min unit must not lend its scale to the fee swap
            dict(file="scenarios/token_namespace_swap.ndjson",
                 cfg="users=3,stake=40,minunits=maa:mbb:mcc,basefee=5,taxnum=2,taxden=5,mintnum=1,mintden=2,"
-                    "regin=maa,regout=mbb,regrn=1,regrd=1,nsswap=1")]
+                    "regin=maa,regout=mbb,regrn=1,regrd=1,nsswap=1"),
+           # negative probing of the conversions, the fee swap, deployments and the hook
+           dict(file="scenarios/token_probe_c10.ndjson", cfg=PROBE_SCN_CFG),
+           dict(file="scenarios/token_probe_c09.ndjson", cfg=PROBE_SCN_CFG)]
 
 # histories recorded (VERIF_RECORD_DIR) for the cross-module checks C11 / C12; the
 # random driver draws its own configuration; while recording it neither injects the
@@ -91,13 +114,23 @@ PROPS = {
                        required=["issue_ok", "edit_max_ok", "edit_max_rej", "mint_ok", "mint_to_cap",
                                  "mint_over_cap_rej", "mint_not_mintable_rej", "burn_frac", "transfer_ok",
                                  "old_owner_rej", "new_owner_ok", "not_owner_rej", "dup_symbol_rej",
-                                 "dup_minunit_rej", "fee_tax_pos", "issue_at_cap", "mint_room0_rej"],
+                                 "dup_minunit_rej", "fee_tax_pos", "issue_at_cap", "mint_room0_rej",
+                                 # negative probing (scenarios/token_probe_c09.ndjson)
+                                 "case_twin_rej", "reserved_rej", "prefix_rej", "len_max_ok", "len_over_rej",
+                                 "fee_denom_rej", "cross_kind_rej", "amt0_rej", "bad_addr_rej", "module_owned_rej",
+                                 "stranger_rej", "issue_cap_below_initial_rej", "to_module_rej", "odd_coin_rej",
+                                 "burn_to_zero"],
                        gen_cfg=C09_MC_CFG, assumptions=ASSUME),
     "C10": ModuleCheck("token", "Token.tla", "TokenTrace.tla", "TokenTrace.cfg", TOKEN_CLAUSES_C10,
                        C10_MC, C10_GEN, TOKEN_RND, scenarios=C10_SCN,
                        required=["deploy_ok", "toerc_ok", "fromerc_ok", "hook_ok", "evm_fail_rej",
                                  "erc_disabled_rej", "blocked_rej", "conv_rej", "swapfee_ok", "swapfee_dust",
-                                 "lossless_row", "lossless_giveback", "lossless_ratio1"],
+                                 "lossless_row", "lossless_giveback", "lossless_ratio1",
+                                 # negative probing (scenarios/token_probe_c10.ndjson)
+                                 "not_deployed_rej", "conv_no_token_rej", "swap_no_route_rej", "deploy_disabled_rej",
+                                 "beacon_unset_rej", "deploy_evm_rej", "evm_noeffect_rej", "hook_bad_receiver_rej",
+                                 "cross_kind_rej", "amt0_rej", "bad_addr_rej", "to_module_rej", "case_twin_rej",
+                                 "odd_coin_rej", "hook_forged_rej"],
                        gen_cfg=C10_MC_CFG, assumptions=ASSUME),
 }
 
